@@ -220,8 +220,13 @@ Definition spec_core (s : bytes) : option pv :=
       end
   end.
 
-(* packaging.version.Version(s) succeeds *)
-Definition spec_parse (s : bytes) : option pv := spec_core (sp_strip s).
+(* packaging.version.Version(s) succeeds.  The reference is defined on ASCII input; the
+   test below is redundant (no character class of the grammar contains a byte >= 0x80)
+   and only makes that domain explicit. *)
+Definition is_ascii (s : bytes) : bool := forallb (fun c => N.ltb c 128) s.
+
+Definition spec_parse (s : bytes) : option pv :=
+  if is_ascii s then spec_core (sp_strip s) else None.
 
 (* ---------- normalisation and the comparison key ---------- *)
 Fixpoint trim0 (l : list Z) : list Z :=
